@@ -85,7 +85,7 @@ def plan_c13(K, ctx):
 
     def expand(cmds, fmt):
         # every class tuple is instantiated with `reps` choices of concrete floats (the first one canonical, the others seeded)
-        lines = open(cmds, encoding="utf-8").read().splitlines()
+        lines = [x for x in open(cmds, encoding="utf-8").read().split("\n") if x]
         with open(cmds, "w", encoding="utf-8") as g:
             for line in lines:
                 c = json.loads(line)
@@ -200,8 +200,70 @@ def plan_c08(K, ctx):
     }
 
 
+# ------------------------------------------------------------------------------------------------ C04 / C05 / C12
+def garbage_plan(K, ctx, prop):
+    quick = ctx.tier == "quick"
+    cfg = ("SPECIFICATION Spec\n" + consts(MAXTOK=3 if quick else 4, MAXEDITS=1 if quick else 2, TIER=f'"{ctx.tier}"', SEED=ctx.seed) +
+           "INVARIANT WindowsOK\nINVARIANT StepsAdvance\nINVARIANT AcceptedIsWF\nINVARIANT SideDoorsWF\nINVARIANT Emit\nCHECK_DEADLOCK FALSE\n")
+    cfg_fold = ("SPECIFICATION Spec\n" + consts(TIER=f'"{ctx.tier}"', SEEDS=16, SEED=ctx.seed) +
+                "INVARIANT AcceptedIsWF\nINVARIANT Emit\nCHECK_DEADLOCK FALSE\n")
+    ndrive = 6000 if quick else 150000
+
+    def nontrivial(c):
+        if c["op"] == "fold_any":
+            return c["v"]["kind"] != "term" or c["v"]["v"]["k"] != "Atom"
+        s = c["s"]
+        return len(s) >= 2
+
+    def one(fmt):
+        def add_drive(cmds, f):
+            tmp = cmds + ".drive"
+            p = K.sh([K.NV, "drive", "garbage", str(ctx.seed), str(ndrive), tmp], 600)
+            if p.returncode != 0:
+                raise K.ToolError("nv drive failed: " + (p.stdout or ""))
+            with open(cmds, "a", encoding="utf-8") as g:
+                for line in open(tmp, encoding="utf-8"):
+                    if json.loads(line)["fmt"] == f:
+                        g.write(line)
+            os.remove(tmp)
+        def run():
+            env = {"NV_PROP": prop}
+            cmds = os.path.join(ctx.rundir, f"garbage_{fmt}.cmds.ndjson")
+            obs = os.path.join(ctx.rundir, f"garbage_{fmt}.obs.ndjson")
+            open(cmds, "w").close()
+            K.run_mc(ctx, "MC_Garbage", cfg, fmt, f"garbage_{fmt}_mc", cmds, workers=5, timeout=7200)
+            if prop in ("C05", "C12"):
+                K.run_mc(ctx, "MC_FoldAny", cfg_fold, fmt, f"foldany_{fmt}_mc", cmds, workers=4)
+            lines = sorted(set(x for x in open(cmds, encoding="utf-8").read().split("\n") if x))
+            open(cmds, "w", encoding="utf-8").write("".join(l + "\n" for l in lines))
+            add_drive(cmds, fmt)
+            K.account(ctx, cmds, nontrivial)
+            K.run_exec(ctx, cmds, obs)
+            K.run_judge(ctx, "J_Garbage", fmt, obs, f"garbage_{fmt}_judge", shards=6 if not quick else 3, env_extra=env)
+        return run
+    K.parallel([one(f) for f in K.FORMATS])
+    ctx.exhaustive = False
+    what = {
+        "C04": "every enum entry point (Narsese, parse_chars, parse_multi, Truth, Budget, Stamp, Punctuation) returned Ok or a displayable Err",
+        "C05": "lexical parse, parse_term and fold returned Ok or Err; folding arbitrary lexical values (MC_FoldAny) returned Ok or Err",
+        "C12": "every value accepted by the enum parser or by fold is well-formed (Values.tla WFParsed / WFFolded) and formattable in all formats and Typst",
+    }[prop]
+    return {
+        "note": "MC_Garbage.tla: all token strings up to the bound over a 44-token alphabet per format, and well-formed texts under token / "
+                "character-level edits (delete, duplicate, insert, swap, truncate inside keywords); the model of M1 is run on each with the "
+                "invariants WindowsOK, StepsAdvance, AcceptedIsWF, SideDoorsWF. Plus seeded long / deep / Unicode inputs from `nv drive` (<= 512 "
+                "chars, nesting <= 64, 5 s watchdog, 256 MB stack). Judged: " + what + ". Model/code verdict differences are DRIFT only.",
+        "rule": "one case = (string or lexical value, format); non-trivial = at least two characters / not a bare atom; token strings exhaustive "
+                "up to the bound, the rest sampled",
+        "assumptions": TRUSTED + ["bounded time is decided by a 5 s watchdog per input, not by TLC"],
+    }
+
+
 PLANS = {
     "C01": plan_c01,
+    "C04": lambda K, ctx: garbage_plan(K, ctx, "C04"),
+    "C05": lambda K, ctx: garbage_plan(K, ctx, "C05"),
+    "C12": lambda K, ctx: garbage_plan(K, ctx, "C12"),
     "C08": plan_c08,
     "C09": plan_c09,
     "C10": plan_c10,
@@ -212,7 +274,7 @@ PLANS = {
 
 
 # ------------------------------------------------------------------------------------------------ replay / selftest
-JUDGE_OF = {"C08": "J_C08", "C09": "J_Pipe", "C10": "J_Pipe", "C01": "J_C01", "C17": "J_C17", "C14": "J_C14", "C13": "J_C13"}
+JUDGE_OF = {"C04": "J_Garbage", "C05": "J_Garbage", "C12": "J_Garbage", "C08": "J_C08", "C09": "J_Pipe", "C10": "J_Pipe", "C01": "J_C01", "C17": "J_C17", "C14": "J_C14", "C13": "J_C13"}
 
 
 def replay(K, pid, path, seed):
@@ -237,7 +299,7 @@ def selftest(K, ctx, meta):
     import glob
     ok = True
     for obs in sorted(glob.glob(os.path.join(ctx.rundir, "*.obs.ndjson"))):
-        lines = open(obs, encoding="utf-8").read().splitlines()
+        lines = [x for x in open(obs, encoding="utf-8").read().split("\n") if x]
         if not lines:
             continue
         rnd = random.Random(ctx.seed)
